@@ -30,7 +30,9 @@
       `groestl-aesni`, feature `std` off, built with `-C target-feature=+ssse3` and without `+aes`:
       `pub mod ssse3` is compiled in and contains `pub use super::aes::{init1024, init512}`, but
       `pub mod aes` is guarded by `any(feature = "std", target_feature = "aes")` and is compiled out
-      (rustc: E0432 unresolved import `super::aes`, compressor.rs:551).
+      (rustc: E0432 unresolved import CC.Gen.CfgAtoms
+import CC.Feat.CfgAtoms
+import `super::aes`, compressor.rs:551).
       Full-strength statement (false on the current tree):
         theorem refs_resolved : ∀ r ∈ nameRefs, ∀ a, Standing a → r.pred.eval a = true →
             (Cfg.any r.definers).eval a = true
@@ -248,5 +250,11 @@ example : checkGroup standing
 example : checkGroup standing
     { crate := "t", name := "ok", flavour := .exactlyOne, alts := [("a", feat "t" "x"), ("b", .not (feat "t" "x"))] } = true := by
   decide +kernel
+
+
+/-- Source tie: every compile-time configuration atom other than cargo features that the sources mention
+    (`target_feature`, `target_endian`, `target_arch`, `is_x86_feature_detected!` names, …; regenerated on
+    every run) is one the models and the harness configurations account for — no new atom, no new site. -/
+theorem cfg_atoms_as_modelled : CC.Gen.CfgAtoms.atoms = CC.Feat.CfgAtoms.expected := rfl
 
 end CC.Thm.C20
